@@ -188,7 +188,7 @@ pub fn grow<T: Default>(v: &mut Vec<T>, idx: usize) {
 /// plausible internal buffer size.
 pub fn gen_peek_n(rng: &mut Rng) -> usize {
     if rng.chance(1, 12) {
-        rng.range(6, 40)
+        if rng.chance(1, 4) { rng.range(41, 130) } else { rng.range(6, 40) }
     } else {
         rng.below(6)
     }
@@ -207,7 +207,8 @@ pub fn gen_history_len(rng: &mut Rng, lo: usize, hi: usize) -> usize {
 /// many line breaks, offsets beyond 255).
 pub fn gen_input_len(rng: &mut Rng, hi: usize) -> (usize, usize) {
     if rng.chance(1, 15) {
-        (0, 300)
+        // one long world in five is very long (tokens and jumps beyond 1 KiB)
+        if rng.chance(1, 5) { (0, 1500) } else { (0, 300) }
     } else {
         (0, hi)
     }
